@@ -203,6 +203,45 @@ CLAIMS["C19"] = (
     "Assumes parent/registry primitives and compensation code in handlers do not raise; asserts state beliefs and are not failure exits.",
     "DESIGN.md §3 C19, Appendix B",
 )
+# necessary conditions added with the fourth and fifth held-out rounds (DESIGN.md §9.9, §9.10): state that outlives a call, error paths, helpers
+STATE = (" State that outlives a call: no table kept at module / class level and consulted on the way from this property's entry points is keyed by a node id, "
+         "a class or source name, or a node object, and no class test is made against a tuple extended at run time (positive patterns; DESIGN.md §9.10).")
+EXTRA = {
+    "C01": " Every child position contributes to the digest (no child skipped under a condition, no de-duplication in the generated enumeration)." + STATE,
+    "C02": " The walk over the positions is never pruned." + STATE,
+    "C03": (" A registry store enters the object under construction / just removed, never an enumerated existing node; a caught exception is not kept in a local "
+            "that outlives its handler (frame/traceback cycle keeping nodes alive); get() compares class objects, not class names; accessors are re-installed on every subclass." + STATE),
+    "C04": (" Deserialization hooks do not edit the payload they are given; serialization hooks keep no copy of their result beyond the call; the source tables are "
+            "reached through the owning class whenever clear_registry rebinds them through cls."),
+    "C05": (" No child value is classified by an abstract-collection test (helpers of later origin included); no one-shot iterator is consumed twice on a path; "
+            "no mutable default argument is filled." + STATE),
+    "C06": (" get_first_ancestor_of_type has no exit before the ancestors were searched; a KeyError of a table lookup is never turned into another outcome." + STATE),
+    "C07": (" findall never prunes its descendant walk; index_spec returns an int on every path (element() tells step parts apart by type)." + STATE),
+    "C08": " The context handed to sub-matchers derives from the context received; the matcher cache is keyed by the full text." + STATE,
+    "C09": (" No visitor method runs inside an iterator's __next__ (map/filter) or inside a try whose handler does not re-raise; the MRO walk stops at the first class "
+            "(no overwrite-in-loop)." + STATE),
+    "C10": (" Construction does not register enumerated existing nodes; visitors do not call detach/replace; origin arithmetic does not extend a container taken from an operand."),
+    "C11": (" The visited set of a recursive predicate is keyed by the annotation itself; is_collection excludes no mutable type; the per-class tables are not filled "
+            "while a classifier stream is still running; the stored annotation is never widened."),
+    "C12": (" The generated parameter list has the public positional order and defaults; get_field_types fills its result in dataclasses.fields order." + STATE),
+    "C13": " Membership tests of the value compare with == (no hash container); the stored annotation is never widened." + STATE,
+    "C14": (" __post_init__ stores derived (init=False) fields only; a replace() without any registry store cannot restore the entry; accessors are re-installed on "
+            "every subclass." + STATE),
+    "C15": " The common-source test ranges over all members (no filtered list); no container of an operand is extended in place." + STATE,
+    "C16": " Every to_dict / from_dict of the mixin hooks passes the call's dialect unless the slot is known to be None on that path.",
+    "C17": (" The matcher cache discipline (full text as key, filled on success only) is checked here too; every occurrence of a sub-pattern is visited "
+            "(no table of compiled parse trees)."),
+    "C18": (" The parent's field is rewritten whenever the node has a parent; the held child sequence is never edited in place; the release of the old node in replace() "
+            "does not depend on the replaced values; no node is looked up among nodes by equality; no class-attribute cache is inherited." + STATE),
+    "C19": (" No blanket detach of claimed children on a failure path; positions restored after a rejection are the recorded ones (no equality search); "
+            "no class-attribute cache of replaceable fields is inherited."),
+    "C20": " No mutable default argument is filled; no one-shot iterator is consumed twice; index_spec of the legacy transformer returns an int on every path.",
+}
+GATE_NOTE = (" Verdicts that rest on not finding a construct are withheld (exit 2, analysis incomplete) for functions rewritten beyond recognition "
+             "(shape gate, DESIGN.md §9.9); verdicts naming a construct that is present are never withheld.")
+for _pid, _extra in EXTRA.items():
+    _t = CLAIMS[_pid]
+    CLAIMS[_pid] = (_t[0], _t[1] + _extra, _t[2] + GATE_NOTE, _t[3])
 PENDING = "check not built yet (work in progress; see DESIGN.md for the planned static rules)"
 
 checks = []
@@ -242,7 +281,7 @@ m = {
         "kind_free_text": "repository-specific static analyser (stdlib ast; flow interpreter, truth-table / order-type deciders, template partial evaluator, call graph) over /repo/src/pyoak",
     }],
     "checks": checks,
-    "notes": "Static-analysis family only; see DESIGN.md. Exit 2 = analysis incomplete (anchor vanished / idiom outside the enumerated tables): neither pass nor alarm.",
+    "notes": "Static-analysis family only; see DESIGN.md. Exit 2 = analysis incomplete (anchor vanished / idiom outside the enumerated tables / verdict withheld by the shape gate): neither pass nor alarm; never produced on the audited tree.",
     "not_applicable": na,
 }
 json.dump(m, open(os.path.join(HERE, "MANIFEST.json"), "w"), indent=1)
